@@ -5,7 +5,9 @@ to_vtl_json over every single-component structure, proved equal to the Gallina m
 K: real pysdmx Schema / DataStructureDefinition / Dataflow objects of 1-5 components (exhaustive singles, sampled
 combinations over every data type and role, data type given locally or through the concept) are passed through the real
 `to_vtl_json`, `vtlengine.semantic_analysis(script, data_structures=<object>)`, `vtlengine.run(...)` and `vtlengine.run_sdmx`
-and the structure the engine uses is compared, component by component and in order, with the model evaluated by Coq.
+and the structure the engine uses — or the input-validation error for an unmappable data type — is compared, component by
+component and in order, with the model evaluated by Coq (`engine_to_vtl_json` = the documented to_vtl_json_spec since the
+repair of to_vtl_json; a raw KeyError coming back is an unlisted VIOLATION).
 pysdmx[xml] is not installed: SDMX-ML files cannot be read here, only in-memory objects are used."""
 from __future__ import annotations
 
@@ -179,6 +181,7 @@ def run(ctx):
     ctx.cov["exhaustive"] = True
     ctx.cov["k_histograms"] = hist
     ctx.cov["raw_keyerror_cases_by_api"] = {a: sum(1 for x in raw_hits if x[0] == a) for a in ("to_vtl_json", "semantic", "run", "run_sdmx")}
+    ctx.cov["structures_rejected_with_input_validation"] = hist["model_outcomes"].get("InputValidation", 0)
     for c in cases[:2] + cases[-2:]:
         ctx.sample({"kind": c[0], "components": [(x[0], x[1].name, x[2].value, x[3]) for x in c[1]], "apis": c[2]})
     ctx.oblige(f"K: the structure used by to_vtl_json / semantic_analysis / run / run_sdmx equals the model on {len(cases)} structures "
